@@ -56,6 +56,11 @@ pub fn bip322_verify_precompile(call: &PrecompileCall) -> InterpreterResult {
         return precompile_error(interpreter_result, "Failed to decode signature");
     };
 
+    // A witness without elements verifies nothing, and the taproot path of the bip322 crate indexes its first element
+    if signature.is_empty() {
+        return precompile_error(interpreter_result, "Failed to verify signature");
+    }
+
     let Ok(_) = verify_simple(&address, &message, signature) else {
         return precompile_error(interpreter_result, "Failed to verify signature");
     };
